@@ -135,6 +135,11 @@ Leave(i) ==
     /\ last' = [ev |-> "leave", i |-> i]
     /\ UNCHANGED <<now, rel, turn>>
 
+\* Compact form for storms: n requests arrive together, at one instant, at a queue (remedy and strategy) nobody has
+\* used yet, whose quota is q and which has no room for waiters; r of them are let through, the others refused at
+\* once.  It is what n arrivals (Admit | RejectFull with QSize = 0) allow on a fresh state: PerWindow.
+FreshBatch(q, n, r) == r \in 0..n /\ r <= q
+
 -------------------------------------------------------------------------------
 \* bounded instance of P itself
 CONSTANTS PReq, PPrio, PTtl, PMaxNow
